@@ -148,6 +148,8 @@ class World:
         self.po_calls: list[int] = []
         self.writes: list[dict] = []
         self.carried_before: list[str] = []
+        self.cycle_no = 0
+        self.decision_mdel = True            # did H match the view on which the oldest pending fn was decided
         self.chg_delays: list[list] = []
 
     def _mkfn(self, hid: str) -> Any:
@@ -166,8 +168,6 @@ class World:
                 raise w.env.kopf.PermanentError('never')
         fn.__name__ = hid
         return fn
-
-    cycle_no = 0
 
     # ---- what is observed of the real world
     def labelled(self) -> bool:
@@ -222,8 +222,7 @@ class World:
 
     def cycle(self, interleave: dict | None) -> None:
         env, srv = self.env, self.srv
-        World.cycle_no = self.cycle_no + 1
-        self.cycle_no = World.cycle_no
+        self.cycle_no += 1
         ev_type = 'MODIFIED' if srv.doc is not None else 'DELETED'
         raw = {'type': ev_type, 'object': copy.deepcopy(srv.doc if srv.doc is not None else srv.last_doc)}
         view_rec = self.rec(raw['object'])
@@ -298,6 +297,9 @@ class World:
                 srv.log.append(('foreign', f))
         # ---- what the monitors need of this cycle (the server's log is cleared at the next one)
         view_md = raw['object']['metadata']
+        view_mdel = (view_md.get('labels', {}).get('app') == 'x') if self.filtered else True
+        if not self.carried_before:
+            self.decision_mdel = view_mdel
         for e in srv.log:
             if e[0] != 'req' or e[1] != 'application/json-patch+json':
                 continue
@@ -310,7 +312,7 @@ class World:
                 'before': list(bmd.get('finalizers', [])), 'after': list(after['metadata'].get('finalizers', [])) if after else None,
                 'deleting': bool(bmd.get('deletionTimestamp')), 'adds_own': adds,
                 'h_matches_now': (bmd.get('labels', {}).get('app') == 'x') if self.filtered else True,
-                'h_matched_in_view': (view_md.get('labels', {}).get('app') == 'x') if self.filtered else True,
+                'h_matched_in_view': view_mdel, 'h_matched_at_decision': self.decision_mdel,
                 'carried_in': fns_at_apply > 0 and bool(self.carried_before),
                 'h_done': self.done})
         for lab in labels[:-1]:
@@ -356,7 +358,7 @@ def gen_scenario(r: Any, i: int) -> dict:
         x = r.random()
         if x < 0.45:
             a: dict[str, Any] = {'do': 'cycle'}
-            if r.random() < 0.35:
+            if r.random() < 0.5:
                 a['interleave'] = {**gen_foreign(r, deleted), 'before': r.choice([0, 0, 1])}
         elif x < 0.53 and not deleted:
             a = {'do': 'delete'}
@@ -422,7 +424,7 @@ def monitors(ctx: fw.Ctx, sc: dict, w: World) -> None:
         if FIN in fb and FIN not in fa and w.c_del and q['h_matches_now'] and not q['h_done']:
             ctx.fail('finalizer removed although a matching mandatory deletion handler has not finished',
                      {**case, 'write': q, 'handler': 'h', 'id_shared_with_other_cause': w.c_shared,
-                      'filters_changed_between_decision_and_write': q['carried_in'] or q['h_matched_in_view'] != q['h_matches_now']},
+                      'filters_changed_between_decision_and_write': q['h_matched_at_decision'] != q['h_matches_now']},
                      observed=[c for c in w.calls if c['id'] == 'h'][-4:], sig='released-early-handler')
     doc = w.srv.doc
     if doc is not None and doc['metadata'].get('deletionTimestamp') and FIN in doc['metadata'].get('finalizers', []):
@@ -430,11 +432,28 @@ def monitors(ctx: fw.Ctx, sc: dict, w: World) -> None:
                  observed=doc['metadata'], sig='fn-never-released')
 
 
+def match_f601(f: dict) -> bool:
+    """F601: a release decided while the deletion handler's filters did not match is carried over a 422 (or computed on
+    the merge-patch response) and lands after an edit made them match again; ids are not shared (that is F8)."""
+    c = f['case']
+    return (f['sig'] == 'released-early-handler' and c.get('layer') == 'function' and not c.get('id_shared_with_other_cause')
+            and bool(c.get('filters_changed_between_decision_and_write')))
+
+
+def corpus_scenarios() -> list[dict]:
+    out = []
+    d = fw.ROOT / 'corpus' / 'C06'
+    for p in sorted(d.glob('fn_*.json')):
+        out.append(json.loads(p.read_text()))
+    return out
+
+
 def run(ctx: fw.Ctx, env: m.Env, n: int) -> list[fw.Case]:
     r = ctx.rng
     cases: list[fw.Case] = []
-    for i in range(n):
-        sc = gen_scenario(r, i)
+    seeded = corpus_scenarios()
+    for i in range(n + len(seeded)):
+        sc = seeded[i] if i < len(seeded) else gen_scenario(r, i)
         w = run_scenario(env, sc)
         monitors(ctx, sc, w)
         init = f'(fl_init {w.cfg()} {cq.clist(cq.cstr(x) for x in sc["foreign"])} {cq.cbool(sc["labelled"] if w.filtered else True)} false)'
